@@ -389,3 +389,23 @@ def canaryStyleOracles (w : World) (r : StepResult) : List (String × Bool) :=
    ("C02.bypass_partition_only", bypassPartitionOnly w r)]
 
 end RV.Oracle.RolloutSM
+
+
+/-! ### the natural advance starts the next step from its beginning -/
+namespace RV.Oracle.RolloutSM
+open RV.Arith RV.Traffic RV.RolloutSM
+
+/-- **C02.i / C03** — when the controller itself moves from `StepReady` of step k to step k+1 (no jump request, plan
+    unchanged), step k+1 starts at its first sub-state (`StepInit` = BeforeStepUpgrade): its pods are upgraded and reported
+    ready before anything else of that step happens.  (The shortcut "same replicas ⇒ start at `StepTrafficRouting`" belongs to
+    user jumps only, which `enterRoutingGated` admits from a sub-state with ready pods.) -/
+def naturalAdvanceStartsInit (w : World) (r : StepResult) : Bool :=
+  match w.ro.sub, r.w.ro.sub with
+  | some s, some s' =>
+    if inRollingNow w.ro ∧ r.w.ro.reason = .inRolling ∧ s.state = .ready ∧ s.hash = .same ∧ ¬ jumpRequested w.ro s ∧
+       s'.curIdx = s.curIdx + 1 then
+      s'.state = .init
+    else true
+  | _, _ => true
+
+end RV.Oracle.RolloutSM
